@@ -31,6 +31,13 @@ class AttrsModelCodeGenerator(GenericModelCodeGenerator):
         self.no_meta = not meta
         self.attrs_kwargs = attrs_kwargs or {}
 
+    def convert_field_name(self, name):
+        name = super().convert_field_name(name)
+        if name == "self":
+            # attrs writes __init__(self, <fields>): a field called "self" is a duplicate argument
+            name += "_"
+        return name
+
     @property
     def decorators(self) -> Tuple[ImportPathList, List[str]]:
         imports, decorators = super().decorators
